@@ -207,38 +207,49 @@ structure Slopes (K : Type) where
   m4 : K
   m5 : K
 
+/-- Slope of interval `(x_i, x_{i+1})`. -/
+def slopeAt (g v : Nat → K) (i : Nat) : K := (v (i + 1) - v i) / (g (i + 1) - g i)
+
+/-- Slopes around interval `idx` that exist in the table; the others keep their initial 0. -/
+def akimaRaw (n : Nat) (g v : Nat → K) (idx : Nat) : Slopes K :=
+  { m1 := if 2 ≤ idx then slopeAt g v (idx - 2) else 0
+    m2 := if 1 ≤ idx then slopeAt g v (idx - 1) else 0
+    m3 := slopeAt g v idx
+    m4 := if idx + 2 < n then slopeAt g v (idx + 1) else 0
+    m5 := if idx + 3 < n then slopeAt g v (idx + 2) else 0 }
+
+/-- `if idx == 0: m2 = 2*m3 - m4; m1 = 2*m2 - m3`. -/
+def Slopes.lo0 (s : Slopes K) : Slopes K :=
+  { s with m2 := 2 * s.m3 - s.m4, m1 := 2 * (2 * s.m3 - s.m4) - s.m3 }
+
+/-- `idx == 1: m1 = 2*m2 - m3`. -/
+def Slopes.lo1 (s : Slopes K) : Slopes K := { s with m1 := 2 * s.m2 - s.m3 }
+
+/-- `idx == ngrid - 3: m5 = 2*m4 - m3`. -/
+def Slopes.hi3 (s : Slopes K) : Slopes K := { s with m5 := 2 * s.m4 - s.m3 }
+
+/-- `idx == ngrid - 2: m4 = 2*m3 - m2; m5 = 2*m4 - m3`. -/
+def Slopes.hi2 (s : Slopes K) : Slopes K :=
+  { s with m4 := 2 * s.m3 - s.m2, m5 := 2 * (2 * s.m3 - s.m2) - s.m3 }
+
 /-- Slopes around interval `idx` (already shifted into `0 … n-2`), with the end conditions.
 `elifChain = true` is the `if idx == 0 … elif idx == 1 … elif idx == ngrid-3 … elif idx == ngrid-2`
 chain of `InterpAkima.interpolate` / `Interp1DAkima.compute_coeffs` (on a 4-point grid `idx = 1`
 takes the second branch and `m5` keeps its initial value 0); `false` is the four independent
 `np.where` blocks of `Interp1DAkima.compute_coeffs_vectorized`. -/
 def akimaSlopes (elifChain : Bool) (n : Nat) (g v : Nat → K) (idx : Nat) : Slopes K :=
-  let sl := fun (i : Nat) => (v (i + 1) - v i) / (g (i + 1) - g i)
-  let m3 := sl idx
-  let m1 : K := if 2 ≤ idx then sl (idx - 2) else 0
-  let m2 : K := if 1 ≤ idx then sl (idx - 1) else 0
-  let m4 : K := if idx + 2 < n then sl (idx + 1) else 0
-  let m5 : K := if idx + 3 < n then sl (idx + 2) else 0
-  let s : Slopes K := ⟨m1, m2, m3, m4, m5⟩
-  let lo0 := fun (s : Slopes K) =>
-    let m2 := 2 * s.m3 - s.m4
-    ({ s with m2 := m2, m1 := 2 * m2 - s.m3 } : Slopes K)
-  let lo1 := fun (s : Slopes K) => ({ s with m1 := 2 * s.m2 - s.m3 } : Slopes K)
-  let hi3 := fun (s : Slopes K) => ({ s with m5 := 2 * s.m4 - s.m3 } : Slopes K)
-  let hi2 := fun (s : Slopes K) =>
-    let m4 := 2 * s.m3 - s.m2
-    ({ s with m4 := m4, m5 := 2 * m4 - s.m3 } : Slopes K)
+  let s := akimaRaw n g v idx
   if elifChain then
-    if idx = 0 then lo0 s
-    else if idx = 1 then lo1 s
-    else if idx = n - 3 then hi3 s
-    else if idx = n - 2 then hi2 s
+    if idx = 0 then s.lo0
+    else if idx = 1 then s.lo1
+    else if idx = n - 3 then s.hi3
+    else if idx = n - 2 then s.hi2
     else s
   else
-    let s := if idx = 0 then lo0 s else s
-    let s := if idx = 1 then lo1 s else s
-    let s := if idx = n - 3 then hi3 s else s
-    if idx = n - 2 then hi2 s else s
+    let s := if idx = 0 then s.lo0 else s
+    let s := if idx = 1 then s.lo1 else s
+    let s := if idx = n - 3 then s.hi3 else s
+    if idx = n - 2 then s.hi2 else s
 
 variable [LT K] [DecidableLT K] [LE K] [DecidableLE K]
 
@@ -365,6 +376,39 @@ def evalND [OfNat K 0] [LT K] [DecidableLT K] [LE K] [DecidableLE K] (kern : Ker
 
 end ND
 
+/-! ## The five general table methods -/
+
+/-- The table methods implemented by OpenMDAO itself (`scipy_*` wrap third-party code). -/
+inductive Method where
+  | slinear | lagrange2 | lagrange3 | akima | cubic
+  deriving DecidableEq, Repr
+
+/-- Minimum number of points per dimension (`check_config`, attribute `k`). -/
+def Method.minPts : Method → Nat
+  | .slinear => 2
+  | .lagrange2 => 3
+  | .lagrange3 => 4
+  | .akima => 4
+  | .cubic => 4
+
+/-- Degree (per variable) of the tensor-product polynomials the method reproduces. -/
+def Method.degree : Method → Nat
+  | .slinear => 1
+  | .lagrange2 => 2
+  | .lagrange3 => 3
+  | .akima => 1
+  | .cubic => 1
+
+/-- Kernel of a method; `eps` is the Akima division guard (option `eps`, default 1e-30). -/
+def Method.kernel {K : Type} [Add K] [Sub K] [Mul K] [Div K] [Neg K]
+    [OfNat K 0] [OfNat K 1] [OfNat K 2] [OfNat K 3] [OfNat K 6]
+    [LT K] [DecidableLT K] [LE K] [DecidableLE K] (eps : K) : Method → Kernel K
+  | .slinear => slinearK
+  | .lagrange2 => lagrange2K
+  | .lagrange3 => lagrange3K
+  | .akima => akimaK eps
+  | .cubic => cubicK
+
 /-! ## Fixed-dimension variants -/
 
 section Fixed
@@ -463,18 +507,16 @@ def lag2Term (x1 x2 x3 : K) (m i : Nat) : K :=
   let c23 := x2 - x3
   let x2 := x2 - x1
   let x3 := x3 - x1
-  let w : K := match i with
-    | 0 => 1 / (c12 * c13)
-    | 1 => -1 / (c12 * c23)
-    | _ => 1 / (c13 * c23)
-  match m with
-  | 0 => (match i with | 0 => x2 * x3 | _ => 0) * w
-  | 1 => (match i with | 0 => x2 + x3 | 1 => x3 | _ => x2) * (-w)
-  | _ => w
+  let w : K :=
+    if i = 0 then 1 / (c12 * c13) else if i = 1 then -1 / (c12 * c23) else 1 / (c13 * c23)
+  if m = 0 then (if i = 0 then x2 * x3 else 0) * w
+  else if m = 1 then (if i = 0 then x2 + x3 else if i = 1 then x3 else x2) * (-w)
+  else w
 
 /-- Powers `[1, δ, δ²]` / `[1, δ, δ², δ³]`. -/
-def pow3 (d : K) (m : Nat) : K := match m with | 0 => 1 | 1 => d | _ => d * d
-def pow4 (d : K) (m : Nat) : K := match m with | 0 => 1 | 1 => d | 2 => d * d | _ => d * d * d
+def pow3 (d : K) (m : Nat) : K := if m = 0 then 1 else if m = 1 then d else d * d
+def pow4 (d : K) (m : Nat) : K :=
+  if m = 0 then 1 else if m = 1 then d else if m = 2 then d * d else d * d * d
 
 /-- `Interp1DLagrange2`: `a = einsum("mi,i->m")`, `val = a[0] + x*(a[1] + x*a[2])`. -/
 def lagrange2_1D (n : Nat) (g : Nat → K) (tbl : List Nat → K) (ix : Int) (x : K) : K :=
@@ -522,17 +564,16 @@ def lag3Term (x1 x2 x3 x4 : K) (m i : Nat) : K :=
   let x2 := x2 - x1
   let x3 := x3 - x1
   let x4 := x4 - x1
-  let w : K := match i with
-    | 0 => 1 / (c12 * c13 * c14)
-    | 1 => -1 / (c12 * c23 * c24)
-    | 2 => 1 / (c13 * c23 * c34)
-    | _ => -1 / (c14 * c24 * c34)
-  match m with
-  | 0 => (match i with | 0 => x2 * x3 * x4 | _ => 0) * (-w)
-  | 1 => (match i with
-          | 0 => x2 * x3 + x2 * x4 + x3 * x4 | 1 => x3 * x4 | 2 => x2 * x4 | _ => x2 * x3) * w
-  | 2 => (match i with | 0 => x2 + x3 + x4 | 1 => x3 + x4 | 2 => x2 + x4 | _ => x2 + x3) * (-w)
-  | _ => w
+  let w : K :=
+    if i = 0 then 1 / (c12 * c13 * c14) else if i = 1 then -1 / (c12 * c23 * c24)
+    else if i = 2 then 1 / (c13 * c23 * c34) else -1 / (c14 * c24 * c34)
+  if m = 0 then (if i = 0 then x2 * x3 * x4 else 0) * (-w)
+  else if m = 1 then
+    (if i = 0 then x2 * x3 + x2 * x4 + x3 * x4 else if i = 1 then x3 * x4
+     else if i = 2 then x2 * x4 else x2 * x3) * w
+  else if m = 2 then
+    (if i = 0 then x2 + x3 + x4 else if i = 1 then x3 + x4 else if i = 2 then x2 + x4 else x2 + x3) * (-w)
+  else w
 
 /-- `Interp1DLagrange3`: `val = a[0] + x*(a[1] + x*(a[2] + x*a[3]))`, δ measured from `grid[i-1]`. -/
 def lagrange3_1D (n : Nat) (g : Nat → K) (tbl : List Nat → K) (ix : Int) (x : K) : K :=
